@@ -353,6 +353,9 @@ func runC16(c *core.Ctx) {
 				day = time.Date(1900+r.Pick(70), time.Month(1+r.Pick(12)), 1+r.Pick(28), 0, 0, 0, 0, time.UTC)
 			}
 		}
+		if i%32 == 7 {
+			day = time.Time{} // the zero instant is 00:00 UTC of 1 January of year 1, a day like any other
+		}
 		sh["year"] = day.Year()
 		sh["sig"] = st
 		instants := []time.Time{day, day.Add(12 * time.Hour), day.Add(24*time.Hour - time.Second), day.Add(24*time.Hour - time.Nanosecond)}
